@@ -66,6 +66,8 @@ type w6Body struct {
 	Globals map[string]string            `json:"globals"`
 	Paths   map[string]map[string]string `json:"paths"`
 	Bursts  []w6Burst                    `json:"actors"`
+	// content written to the file while the server is starting (nil = the file is left alone)
+	Startup *w6Step `json:"startup,omitempty"`
 }
 
 type w6Param struct {
@@ -298,6 +300,11 @@ func (w *w6World) Gen(rng *rand.Rand, property, tier string) (any, simrt.Sched) 
 			changed[p.key] = v
 		}
 		return changed
+	}
+	if (property == "C38" && rng.Intn(3) == 0) || (property == "C13" && rng.Intn(12) == 0) {
+		// the file is rewritten once more while the server starts
+		mutate(fileG, 1+rng.Intn(3))
+		b.Startup = &w6Step{Kind: "file", Globals: w6CopyG(fileG), Paths: w6CopyP(fileP)}
 	}
 	nb := 1 + rng.Intn(4)
 	if property == "C12" {
@@ -690,6 +697,26 @@ func (w *w6World) Run(t *testing.T, sc *simrt.Scenario, cfg simrt.Config) simrt.
 			}
 			return nil
 		}
+		// optionally the file is rewritten while the server starts (the scheduler decides when
+		// exactly: before the file is read, or between its reading and the creation of the watcher)
+		startupWritten := make(chan struct{})
+		if b.Startup != nil {
+			go func() {
+				defer close(startupWritten)
+				simrt.Yield("core/zz_world.go:startup-write")
+				os.WriteFile(confPath, []byte(w6Render(b.Startup.Globals, b.Startup.Paths)), 0o644)
+				simrt.Rec("startup.write", "", "", 0, 0, 0)
+				// a watch that is already established reports the write
+				if sw := fsnotify.SimWatchers(); len(sw) == 1 && len(sw[0].Dirs()) > 0 {
+					select {
+					case sw[0].Events <- fsnotify.Event{Name: confPath, Op: fsnotify.Write}:
+					case <-time.After(10 * time.Second):
+					}
+				}
+			}()
+		} else {
+			close(startupWritten)
+		}
 		p, ok := New([]string{confPath})
 		if !ok {
 			// the generator only produces configurations it believes valid, but the server decides
@@ -856,6 +883,25 @@ func (w *w6World) Run(t *testing.T, sc *simrt.Scenario, cfg simrt.Config) simrt.
 			prev = cur
 			chainMark = len(chain) - 1
 			return true
+		}
+		if b.Startup != nil {
+			// the file changed while the server was starting, and has not changed since:
+			// the configuration in force must become the file's
+			<-startupWritten
+			time.Sleep(5 * time.Second)
+			if coreExited() {
+				return
+			}
+			want, _, err := conf.Load(confPath, nil, p)
+			if err == nil {
+				if comprec.Render(reflect.ValueOf(want), nil) != comprec.Render(reflect.ValueOf(p.conf.Load()), nil) {
+					simrt.Violate("C38", "final-content-not-loaded", "the configuration file was rewritten while the server was starting; 5 s later the server still runs with the content it read first, and nothing will make it read the file again")
+					p.Close()
+					return
+				}
+			}
+			prev = w6Snap(p, plan, past)
+			chainMark = len(chain) - 1
 		}
 		if !check("at start") {
 			p.Close()
